@@ -34,3 +34,53 @@ PROPS["C09"] = dict(
     exhaustive=True,
     assumptions=["float32 order embedding key(x) (sign-magnitude bits, ±0 -> 0) preserves <, == and unary minus on non-NaN floats"],
 )
+
+CHESS_TRUST = ["decoding of FEN text in the driver uses Model.Fen.decode (itself tied by the fen streams)"]
+
+PROPS["C01"] = dict(
+    modules=["Morlock.Props.C01", "Morlock.Props.GenTie"],
+    streams=["c01"],
+    level_text="Lean: the model generator (transcription of PseudoLegalMoves/Move/LegalMoves over rotated bitboards, piece lists and masks "
+               "regenerated from source) is proved to be 'pseudo-legal filtered by Move' in generator order, and the enums/lists/masks it depends on are "
+               "re-proved equal to the source on every run (GenTie). The equality with the FIDE set (Spec.legalMoves on a mailbox board, validated "
+               "by perft against published counts) is decided by the differential stream on every position generated - that part is exploration, not proof.",
+    level_note="Trusted: Lean kernel; Model.Position tied to the code by exact comparison of ordered move lists with all six fields and legality flags; "
+               "Spec.Chess as the reference (perft-validated). The Perm theorem C01.Statement is not proved.",
+    technique="Lean 4 model + reference semantics executed by a compiled driver; differential impl/model/spec on generated positions; perft; partial proof",
+    rule="positions from the 53-FEN corpus, biased random playouts (castling/e.p./promotion/check weighted), synthetic well-formed placements incl. odd material; "
+         "non-trivial = position with check, e.p. right, castling move, promotion, an illegal pseudo-legal move (pin/king walk), mate or stalemate; distinct by the 4 FEN position fields",
+    partial=["C01.Statement (model legal moves ~ reference legal moves, all positions) is NOT a theorem yet: decided by impl-vs-spec comparison only"],
+    modelled=["board/position.go: PseudoLegalMoves, emitMove, emitPromo, captureAt, Move, LegalMoves, IsAttackedBy, IsChecked, safeCastlingSquares -> Model.Position",
+              "board/bitboard.go: attack tables and pawn boards -> Model.Attack", "board/move.go -> Model.Types"],
+    trusted=CHESS_TRUST,
+)
+
+PROPS["C14"] = dict(
+    modules=["Morlock.Props.C14", "Morlock.Props.GenTie"],
+    streams=["fencanon", "game"],
+    level_text="Lean: every finite component of the FEN codec is proved to round-trip (16 rights sets, sides, 64 squares, 12 piece letters); the placement "
+               "round-trip and the reported-FEN claim are decided by differential streams: decode/encode of canonical FENs impl vs model vs an independent strict "
+               "FEN reader/writer, and Engine/Board-reported FEN along game histories vs the standard clocks recomputed from the whole history (Spec.Game).",
+    level_note="Trusted: Lean kernel; Model.Fen transcription tied by the fen streams; Spec.Fen / Spec.Game as reference. DecodeEncodeStatement is not yet a theorem.",
+    technique="Lean 4 component round-trip lemmas (decide) + differential impl/model/spec over canonical FENs and game histories",
+    rule="canonical FENs of generated positions with all 16 rights sets, e.p. on both ranks, both sides, clocks 0..10^6; game histories with castling, e.p., promotions, "
+         "take-backs and forks; non-trivial = distinct (position key, clocks) / history containing a special move, draw, fork or pop",
+    partial=["placement round-trip for all positions is exploration (needs Rep machinery)"],
+    modelled=["board/fen/fen.go: Decode, Encode and helpers -> Model.Fen", "board/board.go clocks -> Model.Board"],
+)
+
+PROPS["C19"] = dict(
+    modules=["Morlock.Props.C19"],
+    streams=["fenstrings"],
+    level_text="Lean: the decoders are total functions in the model (no partial definitions); the theorem placements_in_range shows every square the placement loop "
+               "hands to NewPosition is < 64 and strictly decreasing (no index out of range, no duplicate), for ALL strings; the repaired overflow witness is "
+               "proved rejected. Tie: grammar-based mutations, Unicode digits/letters, over-long digit runs, raw bytes run on the implementation with panics "
+               "mapped to an outcome class and compared with the model; accepted FENs must re-encode to a FEN decoding to the same position with consistent views.",
+    level_note="Trusted: Lean kernel; Model.Fen tied by the fenstrings stream (outcome class + re-encoded FEN exact); Go string->rune conversion. "
+               "Engine.Move acceptance (iff legal) is covered under C10/C01 streams.",
+    technique="Lean 4 totality-by-construction + range theorem over all strings; differential fuzzing impl vs model",
+    rule="valid FEN x {token deletion/duplication/swap, digit inflation 0/9, long digit runs, Unicode digits & letters, NUL/tab/NBSP, field count changes, huge/negative/signed clocks} "
+         "+ raw bytes + move/square strings; non-trivial = accepted, or longer than 10 runes; distinct by rune sequence",
+    partial=["'well-formed value' is read as: non-nil, all views agree, re-encoding decodes to the same position; chess-level plausibility (kings, e.p. pawn) is not demanded of a FEN decoder"],
+    modelled=["board/fen/fen.go Decode; board/move.go ParseMove; board/square.go ParseSquare(Str), ParseFile, ParseRank -> Model.Fen"],
+)
